@@ -382,6 +382,36 @@ def store_monotone_holds(c):
 
 # ---------------------------------------------------------------------------------------------------
 # D. end-to-end runs
+def gen_tradeoff_run(rng):
+    """kept soft constraints / single pass: (a) members with unequal probabilities whose violations can be
+    traded against each other, (b) a priority whose optimal objective is negative (order-1 minimisation);
+    a later priority pulls the other way"""
+    n = rng.choice([2, 3])
+    fn = rng.choice(["y", "z"])
+    variant = rng.choice(["multi_keep_soft", "multi_keep_soft", "single_append", "single_update"])
+    if rng.random() < 0.6:
+        E = 2
+        path = rng.random() < 0.6
+        # y_m = u + p_m with p = (0, 1/2): a two-sided target can be met by one member only, so the optimum
+        # depends on the probabilities and violation can be traded between the members
+        t = float(rng.choice([3, 5, -2]))
+        g1 = {"path": path, "fn": "y", "prio": 1, "k": rng.randrange(n), "order": 1, "weight": 1, "nominal": 1, "tmin": t, "tmax": t}
+        goals = [g1]
+        if rng.random() < 0.4:
+            goals.append({"path": not path, "fn": "z", "prio": 1, "k": rng.randrange(n), "order": 1, "weight": 1, "nominal": 1, "tmax": 9.0})
+        if rng.random() < 0.5:
+            goals.append({"path": path, "fn": "y", "prio": 2, "k": g1["k"], "order": 1, "weight": 1, "nominal": 1})       # minimise y
+        else:
+            goals.append({"path": path, "fn": "y", "prio": 2, "k": g1["k"], "order": 1, "weight": 1, "nominal": 1, "tmin": 11.0})
+        return {"k": "run", "times": list(range(n)), "E": E, "p": [0, "1/2"], "probabilities": rng.choice([["1/4", "3/4"], ["4/5", "1/5"]]),
+                "variant": variant, "goals": goals, "options": {}}
+    E = rng.choice([1, 2])
+    g1 = {"path": rng.random() < 0.6, "fn": fn, "prio": 1, "k": rng.randrange(n), "order": 1, "weight": rng.choice([1, 2]), "nominal": rng.choice([1, 2])}
+    g2 = {"path": g1["path"], "fn": fn, "prio": 2, "k": g1["k"], "order": rng.choice([1, 2]), "weight": 1, "nominal": 1,
+          "tmin": 8.0 if fn == "y" else 15.0}
+    return {"k": "run", "times": list(range(n)), "E": E, "p": [0, "1/2"][:E], "variant": variant, "goals": [g1, g2], "options": {}}
+
+
 # ---------------------------------------------------------------------------------------------------
 def gen_run(rng):
     n = rng.choice([2, 3, 4])
@@ -502,7 +532,8 @@ def priority_objective(c, prio_index, prio, res_all):
                 else:
                     vals = np.array(fsteps(gs, res, n)) / gp.fnum(gs.get("nominal", 1))
                 acc += float(np.sum(w * np.abs(vals) ** order if order % 2 == 0 else w * vals ** order))
-        total += acc / c["E"]
+        pm = gp.fnum(c["probabilities"][m]) if c.get("probabilities") else 1.0 / c["E"]
+        total += acc * pm
     return total
 
 
@@ -635,6 +666,8 @@ def run(ctx):
             cases.append(gen_store(ctx.rng))
         for _ in range(ctx.n(14, 600)):
             cases.append(gen_run(ctx.rng))
+        for _ in range(ctx.n(14, 300)):
+            cases.append(gen_tradeoff_run(ctx.rng))
 
     # ---- A ----
     ub = [c for c in cases if c["k"] == "ub"]
